@@ -102,6 +102,7 @@ type handCfg struct {
 	ante, bd, sb, bb int64
 	limit            string
 	hole, req        int
+	burn             int // Meta.BurnCount (an option the engine never reads: any value must behave like 1)
 	table            string
 	deck             []string
 	bank             []int64
@@ -117,14 +118,17 @@ func (c *handCfg) line() string {
 		}
 		seats = append(seats, fmt.Sprintf("%d:%s", c.bank[i], p))
 	}
-	return fmt.Sprintf("cfg ante=%d bd=%d sb=%d bb=%d limit=%s hole=%d req=%d table=%s deck=%s seats=%s",
-		c.ante, c.bd, c.sb, c.bb, c.limit, c.hole, c.req, c.table, joinList(c.deck, ","), joinList(seats, ","))
+	return fmt.Sprintf("cfg ante=%d bd=%d sb=%d bb=%d limit=%s hole=%d req=%d burn=%d table=%s deck=%s seats=%s",
+		c.ante, c.bd, c.sb, c.bb, c.limit, c.hole, c.req, c.burn, c.table, joinList(c.deck, ","), joinList(seats, ","))
 }
 
 func parseCfgLine(line string) *handCfg {
 	m := kvs(strings.Fields(line))
 	c := &handCfg{ante: atoi(m["ante"]), bd: atoi(m["bd"]), sb: atoi(m["sb"]), bb: atoi(m["bb"]), limit: m["limit"],
-		hole: int(atoi(m["hole"])), req: int(atoi(m["req"])), table: m["table"], deck: splitList(m["deck"], ",")}
+		hole: int(atoi(m["hole"])), req: int(atoi(m["req"])), table: m["table"], deck: splitList(m["deck"], ","), burn: 1}
+	if v, ok := m["burn"]; ok {
+		c.burn = int(atoi(v))
+	}
 	for _, s := range splitList(m["seats"], ",") {
 		ps := strings.SplitN(s, ":", 2)
 		c.bank = append(c.bank, atoi(ps[0]))
@@ -144,6 +148,7 @@ func (c *handCfg) options() *pokerface.GameOptions {
 	o.Limit = c.limit
 	o.HoleCardsCount = c.hole
 	o.RequiredHoleCardsCount = c.req
+	o.BurnCount = c.burn
 	o.CombinationPowers = tableByName(c.table)
 	o.Deck = append([]string{}, c.deck...)
 	for i := range c.bank {
